@@ -74,6 +74,7 @@ fn dispatch(op: &str, req: &Value) -> Value {
         "write-doc" => ops_doc::run(req),
         "cargo-package" => ops_cargo::run(req),
         "dep-graph" => ops_graph::run(req),
+        "node-deps" => ops_graph::node_deps(req),
         _ => json!({"error": format!("unknown op {op}")}),
     }
 }
